@@ -638,6 +638,13 @@ func (r *FnRun) execMakeSlice(st *State, x *ssa.MakeSlice) {
 	}
 	r.distinctFromParams(ptr)
 	r.root.localRanges = append(r.root.localRanges, [2]*Term{ptr, bytes})
+	{
+		// allocator semantics (assumed, as for append and for byte slices): the new backing array lies outside
+		// everything that was allocated when the function was entered
+		fa := tb.BoundVar("a", BV64)
+		ra := r.rootEntry().RA
+		r.addFact(tb.Forall([]*Term{fa}, tb.Implies(tb.ULt(tb.Sub(fa, ptr), bytes), tb.Not(tb.Select(ra, fa))), []*Term{tb.Select(ra, fa)}))
+	}
 	r.vals[x] = PSlice{Ptr: ptr, Len: ln, Cap: cp, Elem: et}
 	r.root.notes["make of non-byte slice: element zero-initialisation not modelled"] = true
 }
